@@ -355,9 +355,24 @@ def correspond(ctx):
         r = T._point_in_triangle(*args)
         cases.append('Bool.eqb (earcut_point_in_triangle %s) %s' % (' '.join(q(c) for c in args), core.coq_bool(bool(r))))
         meta.append(('_point_in_triangle', pts))
-    res = core.run_cases('C05_corr', ['Base', 'G6_tri'], '', cases)
+    # Polygon2D.is_convex (generated, break loops as flag folds) on dyadic polygons: convex ones, one re-entrant corner at every
+    # position of the list, both orders
+    for _ in range(ctx.n(40, 300)):
+        base = G.convex_polygon(rng, n=rng.randint(3, 8), R=10.0, center=(0.0, 0.0))
+        pts = list(base)
+        if len(pts) > 3 and rng.random() < 0.6:
+            i = rng.randrange(len(pts)); n_ = len(pts)
+            cx = sum(p[0] for p in pts) / n_; cy = sum(p[1] for p in pts) / n_
+            mx = (pts[i - 1][0] + pts[(i + 1) % n_][0]) / 2; my = (pts[i - 1][1] + pts[(i + 1) % n_][1]) / 2
+            pts[i] = (G.dy(mx + 0.5 * (cx - mx)), G.dy(my + 0.5 * (cy - my)))
+        k = rng.randrange(len(pts)); pts = pts[k:] + pts[:k]
+        if rng.random() < 0.5: pts = pts[::-1]
+        r = Polygon2D([P2(p_) for p_ in pts]).is_convex
+        cases.append('Bool.eqb (Polygon2D_is_convex (mkPolygon2 %s)) %s' % (core.coq_list([v2(p_) for p_ in pts]), core.coq_bool(bool(r))))
+        meta.append(('Polygon2D.is_convex', pts))
+    res = core.run_cases('C05_corr', ['Base', 'G6_tri', 'G3_poly'], '', cases)
     ctx.corr_cases += len(cases)
     for ok, m in zip(res, meta):
         if ok is not True:
-            ctx.corr_fail.append({'function': 'triangulation.' + m[0], 'input': repr(m[1:]),
+            ctx.corr_fail.append({'function': m[0] if '.' in m[0] else 'triangulation.' + m[0], 'input': repr(m[1:]),
                                   'result': 'model and implementation differ' if ok is False else 'model evaluation failed'})
